@@ -1486,10 +1486,21 @@ def _handle_unwind_stage(in_collection, unused_database, options):
     include_array_index = options.get('includeArrayIndex')
     unwound_collection = []
 
+    def _set_index(doc, index):
+        # The sub-documents that a dotted name goes through are created, as $addFields does.
+        parts = include_array_index.split('.')
+        parent = doc
+        for subfield in parts[:-1]:
+            if not isinstance(parent.get(subfield), dict):
+                parent[subfield] = {}
+            parent = parent[subfield]
+        parent[parts[-1]] = index
+        return doc
+
     def _preserved(doc):
         # A document that is kept although it has nothing to unwind has a null index.
         if include_array_index:
-            doc = helpers.set_value_by_dot(copy.deepcopy(doc), include_array_index, None)
+            doc = _set_index(copy.deepcopy(doc), None)
         return doc
 
     for doc in in_collection:
@@ -1518,7 +1529,7 @@ def _handle_unwind_stage(in_collection, unused_database, options):
             new_doc = copy.deepcopy(doc)
             new_doc = helpers.set_value_by_dot(new_doc, path, field_item)
             if include_array_index:
-                new_doc = helpers.set_value_by_dot(new_doc, include_array_index, index)
+                new_doc = _set_index(new_doc, index)
             unwound_collection.append(new_doc)
 
     return unwound_collection
